@@ -163,52 +163,64 @@ Print Assumptions impl_values_schedule_independent.
 (* ---------- P19b stage 3a/3b: incremental builds (rule scanning), for every schedule ---------- *)
 From LLB Require Import Engine.ImplInc1 Engine.ImplInc9 Engine.ImplInc10.
 
-(* [HInv rules F s]: the engine instance is at rest (quiescent), no rule is marked cancelled or left in the state
-   "does not need to run", every stored result has computedAt <= builtAt <= the epoch, carries the signature of its rule and is a
-   true row (ImplInc1.rowok: its value is what the task function gives for the values now stored for its recorded inputs, provided
+(* [HInv F R s]: the engine instance is at rest (quiescent), no rule is marked cancelled or left in the state
+   "does not need to run", every stored result has computedAt <= builtAt <= the epoch and is a true row RELATIVE TO THE RULE
+   R k sg OF ITS KEY AND SIGNATURE (R: a table of rules by key and signature, as in Properties_C01; table_ok rules R: the rule table
+   of the build agrees with it - for a table that is never edited take R := fixedR rules) (ImplInc1.rowok: its value is what the task function gives for the values now stored for its recorded inputs, provided
    none of them - single-use inputs apart - was recomputed after the row was built; its recorded inputs are keys the rule may request or discover).
    HInv does not mention the environment: the world may change arbitrarily between builds.  impl_hinv_init: a new engine satisfies it.
 
-   PARTIAL - the exact gap to the full statement `impl_build_values_clean`: (1) the rule table is the same in all builds (no rule
-   edits, hence no signature changes); (2) every earlier build returned normally (no cancelled rule is left behind: part of HInv).
+   PARTIAL - the exact gap to the full statement `impl_build_values_clean`: every earlier build returned normally (no cancelled
+   rule is left behind: part of HInv).  The rule table may be edited between builds (HInv does not mention `rules`; each build
+   needs table_ok for its own table: impl_history_rule_edits_values_clean_partial; an edited rule has a new signature).
    The builds are builds of one engine instance, with or without a database attached (HInv does not say which); a restart from the
    database is the subject of impl_restart_from_database / impl_history_restarts_values_clean_partial below (stage 3b-3).
    wf_disc (discovered dependencies are rules that observe external state) is the premise of Properties_C01.
    Single-use requests and discovered dependencies (stages 3b-1, 3b-2: the restrictions r_single = [] and r_disc = [] of the first
    version are lifted), must-follow inputs, branch requests, observation of external state (r_obs), changes of the environment
    between builds, every completion policy [syncp], every schedule and all fuels are covered. *)
-Theorem impl_build_values_clean_partial : forall rules F rank ord syncp,
-  wf_rank rules rank -> wf_disc rules -> (forall k, In RReq (ord k)) ->
-  forall env fuel pfuel cfuel s0 root sched sf m, HInv rules F s0 ->
+Theorem impl_build_values_clean_partial : forall rules F rank R ord syncp,
+  wf_rank rules rank -> wf_disc rules -> table_ok rules R -> (forall k, In RReq (ord k)) ->
+  forall env fuel pfuel cfuel s0 root sched sf m, HInv F R s0 ->
   ibuild rules env F ord syncp fuel pfuel s0 root sched = (RDone sf, m) -> is_fault sf = None ->
-  ((rank root < cfuel)%nat -> res_value (res_of sf root) = cv rules env F cfuel root) /\ HInv rules F sf.
+  ((rank root < cfuel)%nat -> res_value (res_of sf root) = cv rules env F cfuel root) /\ HInv F R sf.
 Proof. exact build_values_clean. Qed.
 Print Assumptions impl_build_values_clean_partial.
 
 (* ... and the value stored for EVERY key that is complete in the epoch of the build is its clean value *)
-Theorem impl_build_values_clean_all_partial : forall rules F rank ord syncp,
-  wf_rank rules rank -> wf_disc rules -> (forall k, In RReq (ord k)) ->
-  forall env fuel pfuel cfuel s0 root sched sf m, HInv rules F s0 ->
+Theorem impl_build_values_clean_all_partial : forall rules F rank R ord syncp,
+  wf_rank rules rank -> wf_disc rules -> table_ok rules R -> (forall k, In RReq (ord k)) ->
+  forall env fuel pfuel cfuel s0 root sched sf m, HInv F R s0 ->
   ibuild rules env F ord syncp fuel pfuel s0 root sched = (RDone sf, m) -> is_fault sf = None ->
   forall k, kind_of sf k = KComplete -> res_builtAt (res_of sf k) = is_epoch sf -> (rank k < cfuel)%nat ->
   res_value (res_of sf k) = cv rules env F cfuel k.
 Proof. exact build_values_clean_all. Qed.
 Print Assumptions impl_build_values_clean_all_partial.
 
-Theorem impl_hinv_init : forall rules F, HInv rules F init_istate.
+Theorem impl_hinv_init : forall F R, HInv F R init_istate.
 Proof. exact HInv_init. Qed.
 Print Assumptions impl_hinv_init.
 
 (* Any history of builds on one engine instance starting from a new engine, each build with its own environment, requested key,
    schedule and fuels ([run_builds]: every build returns a value and no assert fails): every build returns the clean value of its
    requested key for ITS environment.  Same restrictions as above. *)
-Theorem impl_history_values_clean_partial : forall rules F rank ord syncp,
-  wf_rank rules rank -> wf_disc rules -> (forall k, In RReq (ord k)) ->
-  forall cfuel bs s sf vs, HInv rules F s -> run_builds rules F ord syncp s bs = Some (sf, vs) ->
+Theorem impl_history_values_clean_partial : forall rules F rank R ord syncp,
+  wf_rank rules rank -> wf_disc rules -> table_ok rules R -> (forall k, In RReq (ord k)) ->
+  forall cfuel bs s sf vs, HInv F R s -> run_builds rules F ord syncp s bs = Some (sf, vs) ->
   (forall b, In b bs -> (rank (bs_root b) < cfuel)%nat) ->
-  vs = map (fun b => cv rules (bs_env b) F cfuel (bs_root b)) bs /\ HInv rules F sf.
+  vs = map (fun b => cv rules (bs_env b) F cfuel (bs_root b)) bs /\ HInv F R sf.
 Proof. exact history_values_clean. Qed.
 Print Assumptions impl_history_values_clean_partial.
+
+(* The rule table is edited between builds: every build has its own table (and rank function), all of them agreeing with one table R
+   of rules by key and signature ([rb_ok]: wf_rank, wf_disc, table_ok, rank of the requested key < cfuel).  Every build returns the
+   clean value of its requested key for ITS table and ITS environment. *)
+Theorem impl_history_rule_edits_values_clean_partial : forall F R ord syncp, (forall k, In RReq (ord k)) ->
+  forall cfuel bs s sf vs, (forall rb, In rb bs -> rb_ok R cfuel rb) -> HInv F R s ->
+  run_rbuilds F ord syncp s bs = Some (sf, vs) ->
+  vs = map (fun rb => cv (rb_rules rb) (bs_env (rb_build rb)) F cfuel (bs_root (rb_build rb))) bs /\ HInv F R sf.
+Proof. exact rhistory_values_clean. Qed.
+Print Assumptions impl_history_rule_edits_values_clean_partial.
 
 (* ---------- P19b stage 4 (under the premises of stage 3a): the small-step engine refines the specification engine in its VALUES ---------- *)
 From LLB Require Import Engine.SpecC01 Engine.ImplInc11.
@@ -216,13 +228,14 @@ From LLB Require Import Engine.SpecC01 Engine.ImplInc11.
 (* One build.  The specification engine Spec.build from any of its states at rest (AtRest, Properties_C01) and the small-step engine
    from any of its states at rest (HInv), the same rule table, environment and requested key: if both return, they return the same
    value - for every dependency-order oracle of the one and every completion policy, schedule and fuels of the other.
-   PARTIAL: the restrictions of impl_build_values_clean_partial (fixed rule table, no cancelled build before). *)
+   PARTIAL: the restriction of impl_build_values_clean_partial (no cancelled build before); the table of rules by key and signature
+   is fixedR rules here (the specification engine is given the same, unedited, rule table). *)
 Theorem impl_refines_spec_values_partial : forall rules F rank ord syncp order,
   wf_rank rules rank -> wf_disc rules -> (forall k, In RReq (ord k)) ->
   wf_order order ->
   forall env fuel ss k ss' ifuel pfuel s sched sf m, (rank k < fuel)%nat ->
   AtRest F (fixedR rules) ss -> build rules env F order fuel ss k = Ok ss' ->
-  ImplInc1.HInv rules F s -> ibuild rules env F ord syncp ifuel pfuel s k sched = (RDone sf, m) -> is_fault sf = None ->
+  ImplInc1.HInv F R s -> ibuild rules env F ord syncp ifuel pfuel s k sched = (RDone sf, m) -> is_fault sf = None ->
   res_value (res_of sf k) = result_of ss' k.
 Proof. exact refines_spec_values. Qed.
 Print Assumptions impl_refines_spec_values_partial.
@@ -247,35 +260,35 @@ From LLB Require Import Engine.ImplInc13 Engine.ImplInc14.
    possibly, single-use dependencies the memory row has dropped.  impl_dinv_new: a new engine over an empty database.
    A build keeps DInv and returns the clean value; so does a restart (irestart true: a new instance, nothing loaded, every rule
    record read from is_db on first use).  Together with impl_build_values_clean_partial this lifts the restriction "no restart
-   from the database"; what remains is the fixed rule table and that every build returns normally. *)
-Theorem impl_dinv_new : forall rules F, DInv rules F (irestart true init_istate).
+   from the database"; what remains is that every build returns normally. *)
+Theorem impl_dinv_new : forall F R, DInv F R (irestart true init_istate).
 Proof. exact DInv_new. Qed.
 Print Assumptions impl_dinv_new.
 
-Theorem impl_build_values_clean_db_partial : forall rules F rank ord syncp,
-  wf_rank rules rank -> wf_disc rules -> (forall k, In RReq (ord k)) ->
-  forall env fuel pfuel cfuel s0 root sched sf m, DInv rules F s0 ->
+Theorem impl_build_values_clean_db_partial : forall rules F rank R ord syncp,
+  wf_rank rules rank -> wf_disc rules -> table_ok rules R -> (forall k, In RReq (ord k)) ->
+  forall env fuel pfuel cfuel s0 root sched sf m, DInv F R s0 ->
   ibuild rules env F ord syncp fuel pfuel s0 root sched = (RDone sf, m) -> is_fault sf = None ->
-  ((rank root < cfuel)%nat -> res_value (res_of sf root) = cv rules env F cfuel root) /\ DInv rules F sf.
+  ((rank root < cfuel)%nat -> res_value (res_of sf root) = cv rules env F cfuel root) /\ DInv F R sf.
 Proof. exact build_DInv. Qed.
 Print Assumptions impl_build_values_clean_db_partial.
 
-Theorem impl_restart_from_database : forall rules F s, DInv rules F s -> DInv rules F (irestart true s).
+Theorem impl_restart_from_database : forall rules F s, DInv F R s -> DInv rules F (irestart true s).
 Proof. exact restart_DInv. Qed.
 Print Assumptions impl_restart_from_database.
 
 (* a restart without a database is a new engine *)
-Theorem impl_restart_nodb : forall rules F s, is_fault s = None -> ImplInc1.HInv rules F (irestart false s).
+Theorem impl_restart_nodb : forall F R s, is_fault s = None -> ImplInc1.HInv F R (irestart false s).
 Proof. exact restart_nodb_HInv. Qed.
 Print Assumptions impl_restart_nodb.
 
 (* Any history of builds and restarts of an engine with a database, from a new engine over an empty database: every build returns
    the clean value of its requested key for its environment. *)
-Theorem impl_history_restarts_values_clean_partial : forall rules F rank ord syncp,
-  wf_rank rules rank -> wf_disc rules -> (forall k, In RReq (ord k)) ->
-  forall cfuel ops s sf vs, DInv rules F s -> run_hops rules F ord syncp s ops = Some (sf, vs) ->
+Theorem impl_history_restarts_values_clean_partial : forall rules F rank R ord syncp,
+  wf_rank rules rank -> wf_disc rules -> table_ok rules R -> (forall k, In RReq (ord k)) ->
+  forall cfuel ops s sf vs, DInv F R s -> run_hops rules F ord syncp s ops = Some (sf, vs) ->
   (forall b, In b (hop_roots ops) -> (rank (bs_root b) < cfuel)%nat) ->
-  vs = map (fun b => cv rules (bs_env b) F cfuel (bs_root b)) (hop_roots ops) /\ DInv rules F sf.
+  vs = map (fun b => cv rules (bs_env b) F cfuel (bs_root b)) (hop_roots ops) /\ DInv F R sf.
 Proof. exact hops_values_clean. Qed.
 Print Assumptions impl_history_restarts_values_clean_partial.
 
